@@ -1085,3 +1085,32 @@ def replay(payload):
         return {"violates": bool(v), "detail": v}
     v = _judge(sc)
     return {"violates": bool(v), "detail": v}
+
+
+def pregen(ctx):
+    """tie (T): re-translate Node.state_proxy / set_state_proxy / with_feedback (node.py), Model._load_proxys / _clean_proxys / with_feedback
+    (model.py) and DistantFeedback.clamp / call_distant_node (_base.py) of the tree under test into coq/gen/Gen_feedback.v (translator
+    vlib/py2coq_fb.py on top of vlib/py2coq_state.py, vocabulary coq/base/CtxPrelude.v + FbPrelude.v); proofs/Gen_feedback_eq.v then proves
+    them equal to the operations of model/ProxySem.v and model/SubSender.v.  Returns None or the error text; on rejection a stub that does
+    not compile replaces the file (never a stale model)."""
+    import os
+    import traceback
+    from vlib import py2coq_fb
+    path = os.path.join(core.COQ, "gen", "Gen_feedback.v")
+    os.makedirs(os.path.dirname(path), exist_ok=True)
+    err = None
+    try:
+        text = py2coq_fb.emit(core.REPO)
+    except py2coq_fb.Reject as ex:
+        err = "translation rejected: %s" % ex
+    except Exception:
+        err = "translator exception: " + traceback.format_exc()[-1500:]
+    if err is not None:
+        text = "(* GENERATED: translation of the feedback machinery FAILED -- %s *)\nDefinition translation_failed : True := 0.\n" % (
+            err.replace("*)", "* )").replace("(*", "( *"))
+    old = open(path).read() if os.path.exists(path) else None
+    if old != text:               # keep the mtime (and the compiled cone) when nothing changed
+        with open(path, "w") as f:
+            f.write(text)
+    return None if err is None else ("unit feedback (Node.state_proxy / set_state_proxy / with_feedback, Model._load_proxys / _clean_proxys / "
+                                     "with_feedback, DistantFeedback.clamp / call_distant_node): %s" % err)
